@@ -104,6 +104,12 @@ func (w *world) apply(r *rep.Report, o op) bool {
 				w.m.Put(ref.PropId(o.Id, "disabled"), map[string]interface{}{"id": o.Id, "!disabled": true, "deleteWith": []interface{}{o.Id}})
 				w.used[ref.PropId(o.Id, "disabled")] = true
 			}
+		case "enable":
+			// removes the "disabled" property of o.Id (if any): whatever names that property id in deleteWith goes too
+			err = w.loc.EnableRule(ctx, o.Id, true)
+			if err == nil {
+				w.m.Rem(ref.PropId(o.Id, "disabled"))
+			}
 		case "propFact":
 			// a property of o.Id written in fact form; it need not say deleteWith (Deps: what it says anyway)
 			f := map[string]interface{}{"id": o.Id, "!note": "about " + o.Id}
@@ -124,7 +130,10 @@ func (w *world) apply(r *rep.Report, o op) bool {
 			_, err = w.loc.RemRule(ctx, o.Id)
 			if err == nil {
 				w.m.Rem(o.Id)
-				w.m.Rem(ref.PropId(o.Id, "disabled"))
+				// (the rule's "disabled" property, when there is one, went as a dependent of the rule)
+				if _, have := w.m.Items[ref.PropId(o.Id, "disabled")]; have {
+					w.m.Rem(ref.PropId(o.Id, "disabled"))
+				}
 			}
 		case "reload":
 			// the location is rebuilt from its storage (restart, cache expiry): cascades work as before
@@ -256,6 +265,9 @@ func genGraph(g *gen.Gen, ids []string, allowTtl bool) []op {
 					o.Deps = append(o.Deps, id)
 				case 1:
 					o.Deps = append(o.Deps, "dangling")
+				case 2:
+					// the target is a property fact (which may or may not exist): a property is a node like any other
+					o.Deps = append(o.Deps, ref.PropId(ids[g.Intn(n)], []string{"note", "disabled"}[g.Intn(2)]))
 				default:
 					o.Deps = append(o.Deps, ids[g.Intn(n)])
 				}
@@ -312,6 +324,13 @@ func main() {
 			}
 			if g.Intn(12) == 0 {
 				o.Id = "dangling"
+			}
+			switch g.Intn(10) {
+			case 0:
+				// a property fact removed by its own id
+				o = op{Op: "remFact", Id: ref.PropId(idset[g.Intn(len(idset))], []string{"note", "disabled"}[g.Intn(2)])}
+			case 1:
+				o = op{Op: "enable", Id: idset[g.Intn(len(idset))]}
 			}
 			if g.Intn(4) == 0 {
 				// an update in place of a deletion: re-adding an existing id must delete nothing
